@@ -59,6 +59,7 @@ type OpInst struct {
 	PadTo     int
 	Barrier   int
 	BGroup    string
+	Notes     []string // -note words: recorded, no influence on the result
 	StartStep int
 	StartNS   int64
 	EndStep   int
@@ -604,6 +605,12 @@ func (sh *Shell) parseOp(r *shellRun, w []string) *OpInst {
 			o.Barrier, _ = strconv.Atoi(need())
 		case "-bgroup":
 			o.BGroup = need()
+		case "-note":
+			// (the word may be empty and vanish: empty sub-stream)
+			if i+1 < len(w) && !strings.HasPrefix(w[i+1], "-") {
+				i++
+				o.Notes = append(o.Notes, w[i])
+			}
 		default:
 			s.HarnessFail("op: unknown flag " + w[i] + " in " + strings.Join(w, " "))
 		}
